@@ -888,7 +888,7 @@ func verifyFunction(prog *ssa.Program, db *ContractDB, fn *ssa.Function, c *Cont
 		if kind == "item" && (c == nil || !c.NoE6Failure) {
 			pf := x.get(out, x.pendingFailedKey())
 			x.obligation(out, "post", "E6-failure-propagated", mkImplies(pf, mkEq(rets[0].(Term), x.enc.intConst(2, types.Typ[types.Uint8]))), token.NoPos,
-				"a failed status of an executor callee leaves the function as failed", []string{"C05", "C07", "C08", "C20"})
+				"a failed status of an executor callee leaves the function as failed", []string{"C05", "C07", "C08", "C10", "C11", "C20"})
 		}
 	}
 	if c != nil && c.PropagatesErrors && protocolKind(fn.Signature) == "" {
